@@ -15,6 +15,32 @@ def pw_facts(k):
     return z3.And(*fs)
 
 
+def roles_of(fn, defaults):
+    """Names of the local variables that play the roles used by the invariants, read from the CURRENT AST so that a renamed
+    local does not break the proof:  param0 = first parameter; per loop k: test names, the variable `.append`-ed to, the
+    augmented-assignment targets, the `for` target.  Falls back to the given defaults when the shape is unexpected."""
+    import ast
+    from vlib.pyvc.engine import fn_ast, loops_of
+    r = dict(defaults)
+    try:
+        node = fn_ast(fn)
+        r['param0'] = node.args.args[0].arg
+        for k, lp in enumerate(loops_of(node)):
+            if isinstance(lp, ast.While):
+                names = [n.id for n in ast.walk(lp.test) if isinstance(n, ast.Name)]
+                r[f'loop{k}.test'] = names
+            if isinstance(lp, ast.For) and isinstance(lp.target, ast.Name):
+                r[f'loop{k}.target'] = lp.target.id
+            aug = [n.target.id for n in ast.walk(lp) if isinstance(n, ast.AugAssign) and isinstance(n.target, ast.Name)]
+            r[f'loop{k}.aug'] = aug
+            app = [n.func.value.id for n in ast.walk(lp) if isinstance(n, ast.Call) and isinstance(n.func, ast.Attribute)
+                   and n.func.attr == 'append' and isinstance(n.func.value, ast.Name)]
+            r[f'loop{k}.append'] = app
+    except Exception:   # noqa
+        pass
+    return r
+
+
 def divdiv(a, w):
     """instance of the lemma  a >= 0, w > 0  ==>  (a div w) div 128 == a div (128*w)   (lemma_divdiv, proved per run)"""
     return z3.Implies(z3.And(a >= 0, w > 0), (a / w) / 128 == a / (128 * w))
@@ -26,9 +52,15 @@ def lemma_divdiv(e: Engine):
 
 
 # ------------------------------------------------------------------------------- forge_nat
-def setup_forge_nat(eng, v0):
+def setup_forge_nat(eng, v0, F=None):
+    import pytezos.michelson.forge as _F
+    r = roles_of((F or _F).forge_nat, {})
+    n_value = r.get('param0', 'value')
+    n_more = next((x for x in r.get('loop0.test', []) if x != n_value), 'more')
+    n_buf = (r.get('loop0.append') or ['buf'])[0]
+
     def inv(env):
-        value, more, buf = Z(env['value']), ZB(env['more']), env['buf']
+        value, more, buf = Z(env[n_value]), ZB(env[n_more]), env[n_buf]
         k = buf.zn()
         j = z3.Int('j!inv')
         return z3.And(
@@ -40,21 +72,22 @@ def setup_forge_nat(eng, v0):
                                       z3.And(buf.at(j) % 128 == (v0 / P128(j)) % 128,
                                              (buf.at(j) >= 128) == z3.Or(j < k - 1, more)))))
     eng.invariants[('forge_nat', 0)] = dict(
-        inv=inv, facts=lambda env: z3.And(pw_facts(env['buf'].zn()), divdiv(v0, P128(env['buf'].zn()))),
-        variant=lambda env: z3.If(ZB(env['more']), Z(env['value']) + 1, 0))
+        inv=inv, facts=lambda env: z3.And(pw_facts(env[n_buf].zn()), divdiv(v0, P128(env[n_buf].zn()))),
+        variant=lambda env: z3.If(ZB(env[n_more]), Z(env[n_value]) + 1, 0))
 
 
 def harness_forge_nat(F):
     def h(e: Engine):
         v = e.int('value')
-        setup_forge_nat(e, v.e)
+        setup_forge_nat(e, v.e, F)
         try:
             r = e.call(F.forge_nat, [v])
         except RaiseEx as ex:
             e.check('forge_nat::raises.ValueError.iff(value<0)', z3.And(v.e < 0, z3.BoolVal(isinstance(ex.exc, ValueError))))
             return
         e.check('forge_nat::returns.iff(value>=0)', v.e >= 0)
-        e.check('forge_nat::returns.bytes', z3.BoolVal(isinstance(r, SBytes) and not r.mutable))
+        e.check('forge_nat::returns.bytes', z3.BoolVal(isinstance(r, bytes) or (isinstance(r, SBytes) and not r.mutable)))
+        r = e.as_sbytes(r)
         e.assume(pw_facts(r.zn()))
         e.check('forge_nat::ensures.is_canonical_N(result,value)', is_leb(r.at, r.zn(), v.e))
     return h
@@ -80,11 +113,15 @@ def native_forge_nat(case):
 
 
 # ------------------------------------------------------------------------------- forge_int
-def setup_forge_int(eng, v0):
+def setup_forge_int(eng, v0, F=None):
+    import pytezos.michelson.forge as _F
     a = z3.If(v0 >= 0, v0, -v0)
+    r = roles_of((F or _F).forge_int, {})
+    n_res = (r.get('loop0.append') or ['res'])[0]
+    n_i = next((x for x in r.get('loop0.test', []) if x != n_res), 'i')
 
     def inv(env):
-        i, res = Z(env['i']), env['res']
+        i, res = Z(env[n_i]), env[n_res]
         k = res.zn()
         j = z3.Int('j!inv')
         return z3.And(
@@ -93,20 +130,21 @@ def setup_forge_int(eng, v0):
             res.at(0) % 64 == a % 64, ((res.at(0) / 64) % 2 == 1) == (v0 < 0), res.at(0) >= 128, res.at(0) < 256,
             z3.ForAll([j], z3.Implies(z3.And(j >= 1, j < k),
                                       z3.And(res.at(j) % 128 == (a / WZ(j)) % 128, res.at(j) >= 128, res.at(j) < 256))))
-    eng.invariants[('forge_int', 0)] = dict(inv=inv, facts=lambda env: z3.And(pw_facts(env['res'].zn()), divdiv(a, WZ(env['res'].zn()))),
-                                            variant=lambda env: Z(env['i']))
+    eng.invariants[('forge_int', 0)] = dict(inv=inv, facts=lambda env: z3.And(pw_facts(env[n_res].zn()), divdiv(a, WZ(env[n_res].zn()))),
+                                            variant=lambda env: Z(env[n_i]))
 
 
 def harness_forge_int(F):
     def h(e: Engine):
         v = e.int('value')
-        setup_forge_int(e, v.e)
+        setup_forge_int(e, v.e, F)
         try:
             r = e.call(F.forge_int, [v])
         except RaiseEx as ex:
             e.check(f'forge_int::safety.no_exception[{type(ex.exc).__name__}]', z3.BoolVal(False))
             return
-        e.check('forge_int::returns.bytes', z3.BoolVal(isinstance(r, SBytes) and not r.mutable))
+        e.check('forge_int::returns.bytes', z3.BoolVal(isinstance(r, bytes) or (isinstance(r, SBytes) and not r.mutable)))
+        r = e.as_sbytes(r)
         e.assume(pw_facts(r.zn()))
         e.check('forge_int::ensures.is_canonical_Z(result,value)', is_zenc(r.at, r.zn(), v.e))
     return h
@@ -124,21 +162,31 @@ def native_forge_int(case):
 
 
 # ------------------------------------------------------------------------------- unforge_int
-def setup_unforge_int(eng, data: SBytes, n, L):
+def _unforge_roles(F=None):
+    import pytezos.michelson.forge as _F
+    r = roles_of((F or _F).unforge_int, {})
+    n_length = (r.get('loop0.aug') or ['length'])[0]
+    n_i = r.get('loop1.target', 'i')
+    n_value = next((x for x in r.get('loop1.aug', []) if x not in (n_length, n_i)), 'value')
+    return n_length, n_i, n_value
+
+
+def setup_unforge_int(eng, data: SBytes, n, L, F=None):
     a = z3.If(n >= 0, n, -n)
+    n_length, n_i, n_value = _unforge_roles(F)
 
     def inv0(env):
-        length = Z(env['length'])
+        length = Z(env[n_length])
         j = z3.Int('j!inv')
         return z3.And(length >= 1, length <= L,
                       z3.ForAll([j], z3.Implies(z3.And(j >= 0, j < length - 1), data.at(j) >= 128)))
 
     def inv1(env):
-        i, value, length = Z(env['i']), Z(env['value']), Z(env['length'])
+        i, value, length = Z(env[n_i]), Z(env[n_value]), Z(env[n_length])
         return z3.And(length == L, i >= 0, i <= L - 1, value == a / WZ(i + 1), value >= 0)
-    eng.invariants[('unforge_int', 0)] = dict(inv=inv0, variant=lambda env: L - Z(env['length']) + 1)
-    eng.invariants[('unforge_int', 1)] = dict(inv=inv1, facts=lambda env: z3.And(pw_facts(Z(env['i'])), pw_facts(L), divdiv(a, WZ(Z(env['i'])))),
-                                              variant=lambda env: Z(env['i']))
+    eng.invariants[('unforge_int', 0)] = dict(inv=inv0, variant=lambda env: L - Z(env[n_length]) + 1)
+    eng.invariants[('unforge_int', 1)] = dict(inv=inv1, facts=lambda env: z3.And(pw_facts(Z(env[n_i])), pw_facts(L), divdiv(a, WZ(Z(env[n_i])))),
+                                              variant=lambda env: Z(env[n_i]))
 
 
 def harness_unforge_int(F):
@@ -149,7 +197,7 @@ def harness_unforge_int(F):
         e.assume(z3.And(L >= 1, L <= data.zn()))
         e.assume(pw_facts(L))
         e.assume(is_zenc(data.at, L, n))   # requires: data[:L] is the canonical encoding of n
-        setup_unforge_int(e, data, n, L)
+        setup_unforge_int(e, data, n, L, F)
         try:
             r = e.call(F.unforge_int, [data])
         except RaiseEx as ex:
@@ -186,12 +234,14 @@ def harness_unforge_int_strict(F):
         e.assume(z3.And(L > 1, L <= data.zn(), data.at(L - 1) == 0,
                         z3.ForAll([j], z3.Implies(z3.And(j >= 0, j < L - 1), data.at(j) >= 128))))
 
+        n_length, _, _ = _unforge_roles(F)
+
         def inv0(env):
-            length = Z(env['length'])
+            length = Z(env[n_length])
             jj = z3.Int('j!inv')
             return z3.And(length >= 1, length <= L,
                           z3.ForAll([jj], z3.Implies(z3.And(jj >= 0, jj < length - 1), data.at(jj) >= 128)))
-        e.invariants[('unforge_int', 0)] = dict(inv=inv0, variant=lambda env: L - Z(env['length']) + 1)
+        e.invariants[('unforge_int', 0)] = dict(inv=inv0, variant=lambda env: L - Z(env[n_length]) + 1)
         # the decoding loop is irrelevant for rejection: over-approximate it (invariant True)
         e.invariants[('unforge_int', 1)] = dict(inv=lambda env: z3.BoolVal(True))
         try:
